@@ -41,12 +41,13 @@ OWN_SEG = 10
 class Peer(object):
     ''' Scripted peer + the endpoint under test. '''
 
-    def __init__(self, role, state, modulate=False):
+    def __init__(self, role, state, modulate=False, capacity=None):
         from vf.world.sim import Sim
         from vf import tcpcl_harness as th
         self.sim = Sim(seed=0, policy='eager')
         self.role = role
-        sock_a, sock_b = self.sim.net.tcp_pair()
+        self.drain = True
+        sock_a, sock_b = self.sim.net.tcp_pair(capacity=capacity) if capacity else self.sim.net.tcp_pair()
         extra = dict(modulate_target_ack_time=2) if modulate else {}
         self.modulate = modulate
         cfg = th.make_config('dtn://under-test/', segment_size_tx_initial=OWN_SEG, **extra)
@@ -89,6 +90,11 @@ class Peer(object):
         return res
 
     def _read(self):
+        pipe = self.end_sock.tx
+        if self.drain and pipe.rxbuf:
+            # (the peer reads what has arrived; with a bounded socket buffer this is what lets the endpoint go on writing)
+            pipe.read_total += len(pipe.rxbuf)
+            del pipe.rxbuf[:]
         raw = self.end_sock.tx.all_bytes()
         msgs, pos, status = tw.parse_stream(raw)
         self.seen = [m for (m, _e) in msgs]
@@ -131,8 +137,8 @@ class Peer(object):
             self.end.call('terminate', dbus.Byte(0))
             self.settle()
 
-    def queue_own(self):
-        payload = bytes((i * 7 + 3) & 0xFF for i in range(OWN_LEN))
+    def queue_own(self, length=OWN_LEN):
+        payload = bytes((i * 7 + 3) & 0xFF for i in range(length))
         tid = str(self.end.call('send_bundle_data', dbus.ByteArray(payload)))
         self.own_tids.append(tid)
         return tid
@@ -484,12 +490,70 @@ def run_early_ack(role, extra, flags, obs):
             fins = {}
             for ev in peer.sim.hist.signals('send_bundle_finished'):
                 fins.setdefault(str(ev['args'][0]), []).append(str(ev['args'][2]))
+            # "success" means sent: the signal cannot come before the transfer's last segment was written
+            raw = peer.end_sock.tx.all_bytes()
+            end_written = {}
+            for (msg, end) in tw.parse_stream(raw)[0]:
+                if msg['type'] == 'XFER_SEGMENT' and msg['flags'] & tw.FLAG_END:
+                    for (event_no, _vt, offset, chunk) in peer.end_sock.tx.log:
+                        if offset + len(chunk) >= end:
+                            end_written[str(msg['transfer_id'])] = event_no
+                            break
+            for ev in peer.sim.hist.signals('send_bundle_finished'):
+                tid = str(ev['args'][0])
+                if str(ev['args'][2]) == 'success' and ev['no'] < end_written.get(tid, 1 << 62):
+                    problems.append(('own-transfer', 'after %s: own transfer %s was reported finished with success before its last segment had been written' % (what, tid), {}))
             for tid in [first] + others:
                 if fins.get(tid) == ['success']:
                     obs['own_transfers_completed'] += 1
                 elif not (peer.closed() or peer.terminating()):
                     problems.append(('own-transfer', 'after %s: own transfer %s finished with %s although the peer then acknowledged every segment' % (
                         what, tid, fins.get(tid)), {}))
+            obs['deliveries_checked'] += 1
+    return problems, True
+
+
+def run_partial_ack(role, flags, obs, steps=4):
+    ''' The endpoint's own bundle is partly on the wire (the peer has stopped reading, the rest waits) when the peer acknowledges it
+    to its end, with the total length it learned from the START segment.  The transfer is not over: no success before its last
+    segment is written; once the peer reads and acknowledges honestly it completes exactly once. '''
+    peer = Peer(role, 'idle')
+    total = 400
+    tid = peer.queue_own(total)
+    # the event loop gets a few turns only: some segments have been produced, the transfer is still in progress
+    prev = peer.sim.allow_time
+    peer.sim.allow_time = False
+    try:
+        peer.sim.run(steps)
+    finally:
+        peer.sim.allow_time = prev
+    peer._read()
+    segs = [m for m in peer.seen if m['type'] == 'XFER_SEGMENT']
+    if peer.end.hdl._tx_tmp is None or any(m['flags'] & tw.FLAG_END for m in segs):
+        return [], False      # (already produced to its end, or not started: not the history this is about)
+    peer.write(tw.encode(dict(type='XFER_ACK', flags=flags, transfer_id=int(tid), length=total)))
+    peer.settle()
+    obs['out_of_place_injected'] += 1
+    what = 'XFER_ACK (flags %d, length = the announced total) for own transfer %s of which %d of %d octets were on the wire (%s endpoint)' % (
+        flags, tid, sum(len(m['data']) for m in segs), total, role)
+    problems = []
+    errs = peer.sim.world.callback_errors
+    if errs:
+        return [('raised', 'after %s: callback %s raised %s' % (what, errs[0].source, errs[0].exc_type), dict(exc_type=errs[0].exc_type))], True
+    early = [ev for ev in peer.sim.hist.signals('send_bundle_finished') if str(ev['args'][0]) == tid and str(ev['args'][2]) == 'success']
+    if early:
+        problems.append(('own-transfer', 'after %s: the transfer was reported finished with success although its last segment had not been written' % what, {}))
+        return problems, True
+    obs['reactions_seen'] += 1
+    if not (peer.closed() or peer.terminating()):
+        peer.cooperate()
+        fins = [str(ev['args'][2]) for ev in peer.sim.hist.signals('send_bundle_finished') if str(ev['args'][0]) == tid]
+        if peer.sim.world.callback_errors:
+            problems.append(('raised', 'while the peer cooperated after %s: callback raised %s' % (what, peer.sim.world.callback_errors[0].exc_type), {}))
+        elif not (peer.closed() or peer.terminating()) and fins != ['success']:
+            problems.append(('own-transfer', 'after %s the peer read and acknowledged every segment, but the transfer finished with %s' % (what, fins), {}))
+        else:
+            obs['own_transfers_completed'] += 1
             obs['deliveries_checked'] += 1
     return problems, True
 
@@ -577,6 +641,10 @@ def run_case(case):
                     if kind in ('leak', 'raised'):
                         violations.append(dict(key=None, what='[%s] after a refused SESS_INIT (%s): %s' % (kind, c15._short(row), text), detail=dict(row=c15._short(row))))
         obs['reactions_seen'] += obs15.get('contact_failures', 0)
+    if case['kind'] == 'givenup' and case['how'] == 'own':
+        for flags in (tw.FLAG_END, tw.FLAG_START | tw.FLAG_END):
+            for steps in (1, 2, 3, 5, 8, 13):
+                items.append((case['role'], 'partialack:%d:%d' % (flags, steps), []))
     if case['kind'] == 'givenup' and case['how'] == 'peer':
         for extra in (1, 2, 3):
             for flags in (tw.FLAG_END, tw.FLAG_START | tw.FLAG_END, 0, tw.FLAG_START):
@@ -586,7 +654,10 @@ def run_case(case):
             for probe in (['refuse'], ['ack'], ['ackstart'], ['ackend'], ['ack', 'refuse', 'refuse']):
                 items.append((case['role'], 'givenup:%s:%d' % (case['how'], extra), probe))
     for (role, state, seq) in items:
-        if state.startswith('earlyack:'):
+        if state.startswith('partialack:'):
+            problems, any_oop = run_partial_ack(role, int(state.split(':')[1]), obs, steps=int(state.split(':')[2]))
+            obs['partial_ack_histories'] = obs.get('partial_ack_histories', 0) + (1 if any_oop else 0)
+        elif state.startswith('earlyack:'):
             problems, any_oop = run_early_ack(role, int(state.split(':')[1]), int(state.split(':')[2]), obs)
         elif state.startswith('givenup:'):
             problems, any_oop = run_givenup(role, state.split(':')[1], int(state.split(':')[2]), seq, obs)
